@@ -99,7 +99,31 @@ fn seeds() -> Vec<(&'static str, Route, Vec<u8>)> {
     gzip_chunked.extend_from_slice(format!("{:x}\r\n", gz.len()).as_bytes());
     gzip_chunked.extend_from_slice(&gz);
     gzip_chunked.extend_from_slice(b"\r\n0\r\n\r\n");
+    // deflate-coded bodies: raw (what attohttpc decodes), zlib-wrapped (first byte 0x78; refused), and
+    // the zlib one chunked with a first chunk of one byte
+    let raw_deflate = {
+        let mut e = flate2::write::DeflateEncoder::new(Vec::new(), flate2::Compression::new(6));
+        e.write_all(b"hello hello hello hello").unwrap();
+        e.finish().unwrap()
+    };
+    let zlib = {
+        let mut e = flate2::write::ZlibEncoder::new(Vec::new(), flate2::Compression::new(6));
+        e.write_all(b"hello hello hello hello").unwrap();
+        e.finish().unwrap()
+    };
+    let mut deflate = format!("HTTP/1.1 200 OK\r\nContent-Encoding: deflate\r\nContent-Length: {}\r\n\r\n", raw_deflate.len()).into_bytes();
+    deflate.extend_from_slice(&raw_deflate);
+    let mut deflate_zlib = format!("HTTP/1.1 200 OK\r\nContent-Encoding: deflate\r\nContent-Length: {}\r\n\r\n", zlib.len()).into_bytes();
+    deflate_zlib.extend_from_slice(&zlib);
+    let mut deflate_zlib_chunked = b"HTTP/1.1 200 OK\r\nContent-Encoding: deflate\r\nTransfer-Encoding: chunked\r\n\r\n1\r\n".to_vec();
+    deflate_zlib_chunked.push(zlib[0]);
+    deflate_zlib_chunked.extend_from_slice(format!("\r\n{:x}\r\n", zlib.len() - 1).as_bytes());
+    deflate_zlib_chunked.extend_from_slice(&zlib[1..]);
+    deflate_zlib_chunked.extend_from_slice(b"\r\n0\r\n\r\n");
     vec![
+        ("deflate", Route::Direct, deflate),
+        ("deflate-zlib", Route::Direct, deflate_zlib),
+        ("deflate-zlib-chunked", Route::Direct, deflate_zlib_chunked),
         ("length", Route::Direct, b"HTTP/1.1 200 OK\r\nContent-Type: text/plain; charset=utf-8\r\nContent-Length: 11\r\n\r\nhello world".to_vec()),
         ("chunked", Route::Direct, b"HTTP/1.1 200 OK\r\nTransfer-Encoding: chunked\r\n\r\n5\r\nhello\r\n6;x=y\r\n world\r\n0\r\n\r\n".to_vec()),
         ("close", Route::Direct, b"HTTP/1.0 200 OK\r\nServer: x\r\n\r\nhello world".to_vec()),
@@ -761,7 +785,7 @@ pub fn c05(ctx: &Ctx) -> Report {
     rep.set("enumeration_wall_s", t0.elapsed().as_secs_f64());
     rep.set(
         "rule",
-        format!("(1) ALL strings of length 0..={} over {{1,a,;,:,SP,CR,LF,x}} as (a) whole response, (b) header section after a valid status line, (c) body after a valid chunked head, (d) CONNECT reply; each unsegmented and in 1-byte segments, followed by bytes(); (2) every single-bit flip, byte deletion, byte duplication, truncation, numeric blow-up (11 values + 200 zeros) of 12 seed responses and every structural splice between two seeds, read with bytes()/text()/json(); (3) {} endless streams with a pull budget. distinct_nontrivial counts distinct non-empty inputs; observed outcome classes: {}", space.l, space.endless.len(), distinct),
+        format!("(1) ALL strings of length 0..={} over {{1,a,;,:,SP,CR,LF,x}} as (a) whole response, (b) header section after a valid status line, (c) body after a valid chunked head, (d) CONNECT reply; each unsegmented and in 1-byte segments, followed by bytes(); (2) every single-bit flip, byte deletion, byte duplication, truncation, numeric blow-up (11 values + 200 zeros) of 15 seed responses (3 framings, gzip, raw and zlib-wrapped deflate, redirects, json, folded, Shift_JIS, CONNECT ok / refused) and every structural splice between two seeds, read with bytes()/text()/json(); (3) {} endless streams with a pull budget. distinct_nontrivial counts distinct non-empty inputs; observed outcome classes: {}", space.l, space.endless.len(), distinct),
     );
     rep.assume("allocation is what goes through Rust's global allocator on the calling thread (OpenSSL's own allocations during a tunnelled handshake are not counted)");
     rep.assume("limits: finite input => at most 2*len+64 transport reads; peak allocation <= 512 KiB + 6 x bytes actually served (96 x for json()); endless head constructs rejected after <= 16 KiB*(max_headers+2)+64 KiB; CONNECT refusal body <= 10 KiB in the error and <= 10 KiB + 8 KiB pulled");
